@@ -131,11 +131,17 @@ impl<TR: ToTokens> FnDelegationCodegen<'_, TR> {
 
         let opt_dot_await = trait_fn.opt_dot_await(span);
         let attrs = &trait_fn.attrs;
+        // The function's own type and const parameters are parameters of the trait here:
+        // nothing in the arguments need mention them, so they are passed explicitly
+        let opt_turbofish = trait_fn
+            .call_generics
+            .as_ref()
+            .map(|arguments| quote! { ::<#(#arguments),*> });
 
         quote_spanned! { span=>
             #(#attrs)*
             #trait_fn_sig {
-                #opt_self_scoping #fn_ident(#opt_self_comma #(#arguments),*) #opt_dot_await
+                #opt_self_scoping #fn_ident #opt_turbofish (#opt_self_comma #(#arguments),*) #opt_dot_await
             }
         }
     }
